@@ -58,7 +58,7 @@ func runKeyed(stream []byte, di *dialectInfo, key *[32]byte) ([]ref.Frame, int, 
 
 func TestC06Reader(t *testing.T) {
 	rec := evid.New(t, "C06", "frames signed by the reference (SHA-256 formula) must be delivered under the key; v1 frames, unsigned frames, frames signed under a key differing in one bit, every single-bit flip of a signed frame and permuted signatures must yield parse errors and no frame; non-trivial = a rejected variant; distinct by hash of (key, stream)")
-	rec.Require("tamper-header", "tamper-payload", "tamper-checksum", "tamper-linkid", "tamper-timestamp", "tamper-signature", "tamper-signature-2bits", "tamper-signature-byte", "forged-payload-enumerated-sig-byte", "v1", "unsigned", "other-key", "valid-delivered")
+	rec.Require("tamper-header", "tamper-payload", "tamper-checksum", "tamper-linkid", "tamper-timestamp", "tamper-signature", "tamper-signature-2bits", "tamper-signature-byte", "forged-payload-enumerated-sig-byte", "v1", "unsigned", "other-key", "valid-delivered", "history-on-one-reader")
 	dpool := pool(t)
 	evid.Check(t, rec, evid.N(1200, 5000), func(t *rapid.T) {
 		readBufSize = 512
@@ -205,6 +205,40 @@ func TestC06Reader(t *testing.T) {
 				bad[si] = byte(v)
 				reject("forged-payload-enumerated-sig-byte", bad)
 			}
+		}
+		// one reader, a history: the genuine frame, then the same frame damaged outside its signature block (the
+		// block it carries was valid a moment ago - for another frame), then a complete v1 frame whose bytes contain
+		// marker values, then a second genuine frame. Only the two genuine frames may be delivered, and both must be:
+		// what was refused leaves nothing behind
+		{
+			dmg := append([]byte(nil), data...)
+			di0 := rapid.IntRange(3, hdr+pl+1).Draw(t, "history_damage_byte") // header behind length and incompat flags (which decide the framing), payload or checksum
+			dmg[di0] ^= 1 << uint(rapid.IntRange(0, 7).Draw(t, "history_damage_bit"))
+			v1m := ref.Frame{Seq: 1, Sys: 2, Comp: 3, ID: 200, Payload: []byte{0xFD, 0x09, 0x00, 0xFE, 0x05, 0xFD, 0xFD, 0x00, 0x01}, Checksum: 0xFDFE}
+			f2 := f
+			f2.Seq++
+			f2.Timestamp = f.Timestamp // an equal timestamp is inside the window (and cannot overflow 48 bits)
+			if di != nil {
+				if l := di.layouts[f2.ID]; l != nil {
+					f2.Checksum = f2.ChecksumFor(l.CRCExtra)
+				}
+			}
+			f2.Sig = f2.SignatureFor(key)
+			var stream []byte
+			stream = append(stream, data...)
+			stream = append(stream, dmg...)
+			stream = append(stream, v1m.Bytes()...)
+			stream = append(stream, f2.Bytes()...)
+			del, _, err := runKeyed(stream, di, &key)
+			if err != nil {
+				evid.ReplayNote("C06", "TestC06Reader", fmt.Sprintf("key %x\nhistory %x\n%v", key, stream, err))
+				t.Fatalf("history genuine, damaged copy (byte %d), v1 frame, genuine: key %x stream %x: %v", di0, key, stream, err)
+			}
+			if len(del) != 2 || !gen.SameFrame(del[0], f) || !gen.SameFrame(del[1], f2) {
+				evid.ReplayNote("C06", "TestC06Reader", fmt.Sprintf("key %x\nhistory %x\ndelivered %d frames", key, stream, len(del)))
+				t.Fatalf("history genuine, damaged copy (byte %d flipped), complete v1 frame with marker bytes inside, genuine: %d frames delivered, want exactly the two genuine ones; stream %x", di0, len(del), stream)
+			}
+			rec.Case(true, evid.Hash(key[:], stream), "history-on-one-reader")
 		}
 		if rec.WantSample("signed") {
 			rec.Sample("signed", map[string]interface{}{"key": fmt.Sprintf("%x", key), "frame": fmt.Sprintf("%x", data), "flipped_bytes": len(idx)})
